@@ -2,7 +2,8 @@
    restartable machines of coq/Rt/Resume.v driven by the feeding discipline [feed0].
      berdec3   <ty> <hex>                 -> OK <consumed> <val> | MORE | FAIL
      primfeed  <tag> <hex> <c1,c2,..|k*>  -> <RC> <total consumed> <contents hex | ->
-     chainfeed <t1,t2,..> <hex> <c1,..|k*> -> <RC> <total consumed> step=<n> left=<z|->
+     chainfeed <t1,t2,..> <hex> <c1,..|k*> -> <RC> <total consumed> step=<n> left=<z> context=<z>
+                                              (ctx->step, ctx->left, ctx->context of the C after the last call)
    Type syntax as in drv_rt.ml (the parser below is a copy: each area has its own
    extracted copy of the type algebra). *)
 open Model
@@ -114,6 +115,6 @@ let dispatch cmd args =
   | "chainfeed", [tags; h; sched] ->
       let tl = List.map cz_of_string (String.split_on_char ',' tags) in
       let ((c, n), ctx) = feed0 (chain_step tl) chain_ctx0 (chunks_of (bytes_of_hex h) sched) in
-      Some (Printf.sprintf "%s %d step=%d left=%s" (code_s c) (int_of_nat n) (int_of_nat ctx.cstep)
-              (match ctx.cleft with Some z -> string_of_cz z | None -> "-"))
+      Some (Printf.sprintf "%s %d step=%d left=%s context=%s" (code_s c) (int_of_nat n) (int_of_nat ctx.cstep)
+              (string_of_cz ctx.cleft) (string_of_cz ctx.cctx))
   | _ -> None
